@@ -210,6 +210,18 @@ func (r *Run) Violate(v Violation) bool {
 	return false
 }
 
+// Saturated reports that enough violations have been recorded; workloads stop exploring then, so
+// that a badly broken tree is reported in minutes instead of exhausting every watchdog.
+func (r *Run) Saturated() bool {
+	r.mu.Lock()
+	defer r.mu.Unlock()
+	n := 0
+	for _, c := range r.vioCount {
+		n += c
+	}
+	return n >= 40
+}
+
 func (r *Run) ViolationCount() int {
 	r.mu.Lock()
 	defer r.mu.Unlock()
